@@ -647,6 +647,50 @@ func cliLeg(c *harness.Ctx, rng *rand.Rand, class string, blob []byte, idx desyn
 			}
 		}
 	}
+	// a chunk whose stored object decodes to other bytes of the same length, read through a cache (-c): the command
+	// must fail rather than write altered data (and must not have put the object into the cache under the good name)
+	if len(idx.Chunks) > 0 {
+		victim := idx.Chunks[rng.Intn(len(idx.Chunks))]
+		if victim.ID != dsu.Sum(make([]byte, sz.Max)) && victim.Size > 0 {
+			bad := append([]byte(nil), blob[victim.Start:victim.Start+victim.Size]...)
+			bad[rng.Intn(len(bad))] ^= 0x20
+			z, zerr := desync.Compress(bad)
+			dsu.Must(zerr)
+			sid := victim.ID.String()
+			dsu.WriteFile(filepath.Join(store, sid[:4], sid+".cacnk"), z)
+			cache := filepath.Join(dir, "cache")
+			os.MkdirAll(cache, 0755)
+			args := []string{"cat", "-s", store, "-c", cache}
+			if rng.Intn(2) == 0 {
+				args = append(args, "-o", fmt.Sprint(rng.Intn(int(victim.Start)+1)), "-l", fmt.Sprint(L))
+			}
+			off := 0
+			if len(args) > 5 {
+				fmt.Sscan(args[6], &off)
+			}
+			args = append(args, idxFile)
+			cmd := exec.Command(cli, args...)
+			cmd.Env = append(os.Environ(), "HOME="+dir)
+			var stdout, stderr bytes.Buffer
+			cmd.Stdout, cmd.Stderr = &stdout, &stderr
+			err := cmd.Run()
+			if !bytes.HasPrefix(blob[off:], stdout.Bytes()) {
+				c.Violation("cli-altered-data", "desync %v (exit error: %v) wrote bytes that are not the blob's: the store holds altered data under chunk %x", args, err, victim.ID[:4])
+				return
+			}
+			if err == nil {
+				c.Violation("cli-store-error-ignored", "desync %v exited 0 although the store holds altered data under chunk %x", args, victim.ID[:4])
+				return
+			}
+			if b, rerr := os.ReadFile(filepath.Join(cache, sid[:4], sid+".cacnk")); rerr == nil {
+				if p, derr := desync.Decompress(nil, b); derr != nil || dsu.Sum(p) != victim.ID {
+					c.Violation("cli-cache-poisoned", "desync %v left an object in the cache under chunk %x that does not hash to it", args, victim.ID[:4])
+					return
+				}
+			}
+			c.Count("cli_runs_with_altered_chunk", 1)
+		}
+	}
 	c.Count("cli_cases", 1)
 	c.NonTrivial("cli|%s|%s", class, sz)
 	c.Sample(map[string]interface{}{"leg": "cli", "blob": class, "len": L})
